@@ -297,17 +297,17 @@ def registered(kind: str):
 # --------------------------------------------------------------------------------------------
 # raster files for the input section
 # --------------------------------------------------------------------------------------------
-def write_tif(path, data, descriptions=None, nodata=None):
-    """data: (count, rows, cols) float32 array"""
+def write_tif(path, data, descriptions=None, nodata=None, dtype="float32"):
+    """data: (count, rows, cols) array, stored in `dtype`"""
     import rasterio
 
-    data = np.asarray(data, dtype=np.float32)
+    data = np.asarray(data, dtype=np.dtype(dtype))
     if data.ndim == 2:
         data = data[None]
     with warnings.catch_warnings():
         warnings.simplefilter("ignore")
         with rasterio.open(
-            path, "w", driver="GTiff", height=data.shape[1], width=data.shape[2], count=data.shape[0], dtype="float32",
+            path, "w", driver="GTiff", height=data.shape[1], width=data.shape[2], count=data.shape[0], dtype=dtype,
             **({"nodata": nodata} if nodata is not None else {})
         ) as dst:
             dst.write(data)
@@ -325,13 +325,14 @@ class FileSet:
         self.info = {}
         rng = np.random.RandomState(7)
 
-        def add(name, count, rows, cols, descriptions=None, min_gt_max=False, grid=False, nodata_tag=None):
+        def add(name, count, rows, cols, descriptions=None, min_gt_max=False, grid=False, nodata_tag=None,
+                dtype="float32", bounds=(-2.0, 2.0)):
             path = os.path.join(root, name)
             if grid:
-                lo = np.full((rows, cols), -2.0, dtype=np.float32)
-                hi = np.full((rows, cols), 2.0, dtype=np.float32)
+                lo = np.full((rows, cols), bounds[0], dtype=np.float32)
+                hi = np.full((rows, cols), bounds[1], dtype=np.float32)
                 if min_gt_max and nodata_tag is None:
-                    lo[rows // 2, cols // 2] = 3.0
+                    lo[rows // 2, cols // 2] = bounds[1] + 1.0
                 if min_gt_max and nodata_tag is not None:
                     # the only cells with min > max hold the file's declared nodata value: Pandora reads the grids raw,
                     # so this is still a malformed grid
@@ -340,7 +341,7 @@ class FileSet:
                 data = np.stack([lo, hi] + [hi] * (count - 2))[:count]
             else:
                 data = rng.randint(0, 20, size=(count, rows, cols)).astype(np.float32)
-            write_tif(path, data, descriptions, nodata=nodata_tag)
+            write_tif(path, data, descriptions, nodata=nodata_tag, dtype=dtype)
             self.info[path] = {
                 "width": cols,
                 "height": rows,
@@ -364,6 +365,14 @@ class FileSet:
         self.grid_bad = add("grid_bad.tif", 2, 5, 6, grid=True, min_gt_max=True)
         self.grid_bad_nodata = add("grid_bad_nodata.tif", 2, 5, 6, grid=True, min_gt_max=True, nodata_tag=-9999.0)
         self.grid_ok_nodata = add("grid_ok_nodata.tif", 2, 5, 6, grid=True, nodata_tag=-9999.0)
+        # grids stored in narrow integer types (seed C17-4): min > max must be judged on the stored values, whatever
+        # arithmetic the storage type would do on a difference (30 - 31 = 255 in uint8, 100 - (-100) = -56 in int8)
+        self.grid_u8_bad = add("grid_u8_bad.tif", 2, 5, 6, grid=True, min_gt_max=True, dtype="uint8", bounds=(29.0, 30.0))
+        self.grid_u16_bad = add("grid_u16_bad.tif", 2, 5, 6, grid=True, min_gt_max=True, dtype="uint16", bounds=(2.0, 6.0))
+        self.grid_u8_ok = add("grid_u8_ok.tif", 2, 5, 6, grid=True, dtype="uint8", bounds=(0.0, 200.0))
+        self.grid_i8_wide = add("grid_i8_wide.tif", 2, 5, 6, grid=True, dtype="int8", bounds=(-100.0, 100.0))
+        self.grid_i16_wide = add("grid_i16_wide.tif", 2, 5, 6, grid=True, dtype="int16", bounds=(-20000.0, 20000.0))
+        self.grid_i16_bad = add("grid_i16_bad.tif", 2, 5, 6, grid=True, min_gt_max=True, dtype="int16", bounds=(-3.0, 4.0))
         self.grid_b = add("grid_b.tif", 2, 4, 6, grid=True)
         self.grid_1band = add("grid_1.tif", 1, 5, 6)
         self.grid_3band = add("grid_3.tif", 3, 5, 6, grid=True)
